@@ -89,11 +89,37 @@ impl AsyncRead for ScriptReader {
     }
 }
 
-#[derive(Clone, Debug)]
+#[derive(Clone, Debug, PartialEq)]
 enum WEv {
     Accept(usize),
     Pending,
     Fail,
+    /// `Pending` without a wake-up: the `tokio::time::timeout` around the write fires
+    Stall,
+}
+
+/// what successive `poll_flush` calls do (an exhausted script completes)
+#[derive(Clone, Debug, PartialEq)]
+enum FEv {
+    Done,
+    Pending,
+    Fail,
+    Stall,
+}
+
+fn fevs_text(s: &[FEv]) -> String {
+    if s.is_empty() {
+        return "-".to_string();
+    }
+    s.iter()
+        .map(|e| match e {
+            FEv::Done => "d",
+            FEv::Pending => "p",
+            FEv::Fail => "f",
+            FEv::Stall => "s",
+        })
+        .collect::<Vec<_>>()
+        .join(",")
 }
 
 fn wevs_text(s: &[WEv]) -> String {
@@ -105,16 +131,21 @@ fn wevs_text(s: &[WEv]) -> String {
             WEv::Accept(k) => format!("a{}", k),
             WEv::Pending => "p".to_string(),
             WEv::Fail => "f".to_string(),
+            WEv::Stall => "s".to_string(),
         })
         .collect::<Vec<_>>()
         .join(",")
 }
 
-/// an `AsyncWrite` that records what it accepted; an exhausted script accepts everything
+/// an `AsyncWrite` that records what it accepted; an exhausted script accepts everything.
+/// `flushes` counts the `poll_flush` calls that completed.
 struct ScriptWriter {
     script: VecDeque<WEv>,
+    fscript: VecDeque<FEv>,
     chunks: Vec<Vec<u8>>,
     flushes: u64,
+    /// where the last stall happened: 1 = in `poll_write`, 2 = in `poll_flush`
+    stalled: u8,
 }
 
 impl AsyncWrite for ScriptWriter {
@@ -136,11 +167,31 @@ impl AsyncWrite for ScriptWriter {
                 Poll::Pending
             }
             Some(WEv::Fail) => Poll::Ready(Err(io::Error::new(io::ErrorKind::BrokenPipe, "scripted failure"))),
+            Some(WEv::Stall) => {
+                // stays in place until the caller's timeout has fired and the caller removed it
+                self.script.push_front(WEv::Stall);
+                self.stalled = 1;
+                Poll::Pending
+            }
         }
     }
-    fn poll_flush(mut self: Pin<&mut Self>, _cx: &mut Context<'_>) -> Poll<io::Result<()>> {
-        self.flushes += 1;
-        Poll::Ready(Ok(()))
+    fn poll_flush(mut self: Pin<&mut Self>, cx: &mut Context<'_>) -> Poll<io::Result<()>> {
+        match self.fscript.pop_front() {
+            None | Some(FEv::Done) => {
+                self.flushes += 1;
+                Poll::Ready(Ok(()))
+            }
+            Some(FEv::Pending) => {
+                cx.waker().wake_by_ref();
+                Poll::Pending
+            }
+            Some(FEv::Fail) => Poll::Ready(Err(io::Error::new(io::ErrorKind::BrokenPipe, "scripted flush failure"))),
+            Some(FEv::Stall) => {
+                self.fscript.push_front(FEv::Stall);
+                self.stalled = 2;
+                Poll::Pending
+            }
+        }
     }
     fn poll_shutdown(self: Pin<&mut Self>, _cx: &mut Context<'_>) -> Poll<io::Result<()>> {
         Poll::Ready(Ok(()))
@@ -247,7 +298,7 @@ fn run_write(rt: &tokio::runtime::Runtime, m: char, msg: &[u8], script: &[WEv]) 
     let script: VecDeque<WEv> = script.iter().cloned().collect();
     let r = std::panic::catch_unwind(std::panic::AssertUnwindSafe(|| {
         rt.block_on(async move {
-            let mut w = ScriptWriter { script, chunks: vec![], flushes: 0 };
+            let mut w = ScriptWriter { script, fscript: VecDeque::new(), chunks: vec![], flushes: 0, stalled: 0 };
             let f = MessageFramer::new(mode_of(m));
             let res = match f.write_framed(&mut w, msg).await {
                 Ok(()) => "ok".to_string(),
@@ -1200,12 +1251,386 @@ fn real_timeouts(ctx: &mut Ctx, rt: &tokio::runtime::Runtime) {
     }
 }
 
+
+// ---------------------------------------------------------------------------------------------------------
+// the writer under `poll_flush` behaviours and write timeouts; several messages over one sink
+
+/// the call `FramedTransport::write` makes — `timeout(d, framer.write_framed(stream, data))` — for each message in turn,
+/// by a caller that goes on after `Timeout` (recoverable) and stops at any other error; paused clock.
+/// Returns the results, the chunks the sink accepted, the completed flushes.
+fn run_write_many(rt: &tokio::runtime::Runtime, m: char, msgs: &[Vec<u8>], script: &[WEv], fscript: &[FEv]) -> (Vec<String>, Vec<Vec<u8>>, u64) {
+    let script: VecDeque<WEv> = script.iter().cloned().collect();
+    let fscript: VecDeque<FEv> = fscript.iter().cloned().collect();
+    let msgs = msgs.to_vec();
+    let r = std::panic::catch_unwind(std::panic::AssertUnwindSafe(|| {
+        rt.block_on(async move {
+            let mut w = ScriptWriter { script, fscript, chunks: vec![], flushes: 0, stalled: 0 };
+            let f = MessageFramer::new(mode_of(m));
+            let mut out = Vec::new();
+            for msg in &msgs {
+                match tokio::time::timeout(std::time::Duration::from_millis(50), f.write_framed(&mut w, msg)).await {
+                    Err(_) => {
+                        out.push("err-timeout".to_string());
+                        if w.stalled == 1 && w.script.front() == Some(&WEv::Stall) {
+                            w.script.pop_front();
+                        } else if w.stalled == 2 && w.fscript.front() == Some(&FEv::Stall) {
+                            w.fscript.pop_front();
+                        } else {
+                            out.push("timeout-without-stall".to_string());
+                            break;
+                        }
+                    }
+                    Ok(Ok(())) => out.push("ok".to_string()),
+                    Ok(Err(e)) => {
+                        out.push(io_class(&e));
+                        break;
+                    }
+                }
+                w.stalled = 0;
+            }
+            (out, w.chunks, w.flushes)
+        })
+    }));
+    r.unwrap_or_else(|_| (vec!["panic".to_string()], vec![], 0))
+}
+
+fn chunks_text(chunks: &[Vec<u8>]) -> String {
+    if chunks.is_empty() { "-".to_string() } else { chunks.iter().map(|c| hex(c)).collect::<Vec<_>>().join(",") }
+}
+
+fn random_fscript(rng: &mut Rng, stalls: bool) -> Vec<FEv> {
+    let n = rng.below(4);
+    (0..n)
+        .map(|_| match rng.below(8) {
+            0 | 1 => FEv::Pending,
+            2 => FEv::Fail,
+            3 if stalls => FEv::Stall,
+            _ => FEv::Done,
+        })
+        .collect()
+}
+
+fn writers_ext(ctx: &mut Ctx) {
+    let rt = tokio::runtime::Builder::new_current_thread().enable_time().start_paused(true).build().expect("paused runtime");
+    let rt2 = tokio::runtime::Builder::new_current_thread().enable_all().build().expect("runtime");
+    // 1. one message, every position of a failure / zero write / stall in the sink, and every flush behaviour
+    for (m, msg) in [('h', vec![1u8, 2, 3]), ('d', vec![9u8]), ('h', vec![]), ('d', vec![])] {
+        let total = prefix_size(m) + msg.len();
+        for at in 0..=total {
+            for bad in [WEv::Fail, WEv::Accept(0), WEv::Stall, WEv::Pending] {
+                let mut script: Vec<WEv> = (0..at).map(|_| WEv::Accept(1)).collect();
+                script.push(bad.clone());
+                for fl in [vec![], vec![FEv::Pending, FEv::Done], vec![FEv::Fail], vec![FEv::Pending, FEv::Stall], vec![FEv::Stall]] {
+                    let (res, chunks, flushes) = run_write_many(&rt, m, &[msg.clone()], &script, &fl);
+                    let wire: Vec<u8> = chunks.concat();
+                    let one = frame_spec(m, &msg);
+                    ctx.tie("wpos", &format!("c05writef {} {} {} {}", m, hexarg(&msg), wevs_text(&script), fevs_text(&fl)),
+                        &format!("{} {} {}", res.join(","), chunks_text(&chunks), flushes));
+                    ctx.count(&format!("wpos_{}", res.last().cloned().unwrap_or_default()));
+                    // the property on the implementation: ok <=> whole frame + one completed flush; error => no completed flush,
+                    // the wire a prefix of the frame
+                    let good = if res == ["ok"] { wire == one && flushes == 1 } else { one.starts_with(&wire) && flushes == 0 };
+                    if !good {
+                        ctx.fail("writer", &format!("mode={} msg={} script={} flush={} res={} wire={} flushes={}", m, hexarg(&msg), wevs_text(&script), fevs_text(&fl), res.join(","), hex(&wire), flushes));
+                    }
+                    ctx.count("writer_checked");
+                }
+            }
+        }
+    }
+    // 2. several messages over one sink
+    let n = ctx.n(300, 2500);
+    for _ in 0..n {
+        let m = if ctx.rng.chance(1, 2) { 'h' } else { 'd' };
+        let k = ctx.rng.range(1, 4) as usize;
+        let msgs: Vec<Vec<u8>> = (0..k)
+            .map(|_| {
+                let l = match ctx.rng.below(5) { 0 => 0, 1 => 1, _ => ctx.rng.range(0, 12) as usize };
+                msg_bytes(&mut ctx.rng, l)
+            })
+            .collect();
+        let total: usize = msgs.iter().map(|x| x.len() + prefix_size(m)).sum();
+        let with_stalls = ctx.rng.chance(1, 3);
+        let mut script = Vec::new();
+        let ne = ctx.rng.below(10);
+        for _ in 0..ne {
+            script.push(match ctx.rng.below(14) {
+                0 | 1 => WEv::Pending,
+                2 => if ctx.rng.chance(1, 3) { WEv::Accept(0) } else { WEv::Accept(1) },
+                3 => if ctx.rng.chance(1, 3) { WEv::Fail } else { WEv::Accept(2) },
+                4 | 5 if with_stalls => WEv::Stall,
+                6 => WEv::Accept(total + 3),
+                _ => WEv::Accept(ctx.rng.range(1, 6) as usize),
+            });
+        }
+        let fl = random_fscript(&mut ctx.rng, with_stalls);
+        let (res, chunks, _flushes) = run_write_many(&rt, m, &msgs, &script, &fl);
+        let wire: Vec<u8> = chunks.concat();
+        let timeouts = res.iter().filter(|t| *t == "err-timeout").count();
+        let want: Vec<u8> = msgs.iter().flat_map(|x| frame_spec(m, x)).collect();
+        let req = format!("c05writem {} {} {} {}", m, msgs_text(&msgs), wevs_text(&script), fevs_text(&fl));
+        let resp = format!("{} {}", if res.is_empty() { "-".to_string() } else { res.join(",") }, chunks_text(&chunks));
+        if timeouts == 0 {
+            ctx.tie("wmany", &req, &resp);
+            ctx.count("wmany_no_timeout");
+            // the property on the implementation, by the independent Spec: the wire is a prefix of the frames (all of them
+            // when every write succeeded)
+            let all = res.len() == msgs.len() && res.iter().all(|t| t == "ok");
+            ctx.prop("wmany", &format!("c05wireprop {} {} {} {}", m, msgs_text(&msgs), hexarg(&wire), if all { "all" } else { "prefix" }), "ok");
+            if !want.starts_with(&wire) || (all && wire != want) {
+                ctx.fail("writer-seq", &format!("mode={} msgs={} script={} flush={} res={} wire={}", m, msgs_text(&msgs), wevs_text(&script), fevs_text(&fl), res.join(","), hex(&wire)));
+            }
+            if all {
+                // and reading the wire back with the real deframer, cut as the sink cut it, gives the messages
+                let evs: Vec<Ev> = chunks.iter().map(|c| Ev::Chunk(c.clone())).collect();
+                read_case(ctx, &rt2, "wmany", m, &evs, Some(&msgs), false);
+            }
+        } else if want.starts_with(&wire) {
+            // a timeout that left no partial frame behind (stall at a frame boundary or in the flush)
+            ctx.tie("wmany", &req, &resp);
+            ctx.count("wmany_timeout_harmless");
+        } else {
+            ctx.tie("kf-c05-write-timeout-partial", &req, &resp);
+            ctx.count("wmany_timeout_partial_frame");
+        }
+    }
+    // 3. the pinned witness of C05_not_write_delay_invariant, against the real writer and the real deframer
+    let msg = vec![0u8, 1, 7];
+    let msgs = vec![msg.clone(), msg.clone()];
+    let script = vec![WEv::Accept(2), WEv::Accept(1), WEv::Stall];
+    let (res, chunks, _) = run_write_many(&rt, 'h', &msgs, &script, &[]);
+    ctx.tie("kf-c05-write-timeout-partial", &format!("c05writem h {} {} -", msgs_text(&msgs), wevs_text(&script)),
+        &format!("{} {}", res.join(","), chunks_text(&chunks)));
+    let evs: Vec<Ev> = chunks.iter().map(|c| Ev::Chunk(c.clone())).collect();
+    let (back, _) = run_read(&rt2, 'h', &evs);
+    ctx.tie("kf-c05-write-timeout-partial", &format!("c05wrread h {} {} -", msgs_text(&msgs), wevs_text(&script)), &back.join(" "));
+    if back.iter().any(|t| t.starts_with("ok=") && *t != format!("ok={}", hex(&msg))) {
+        ctx.fail(
+            "kf-c05-write-timeout-partial",
+            &format!(
+                "timeout(50ms, write_framed) handshake mode, message 000107 written twice (the retry after Timeout), sink takes 2 bytes, 1 byte, then stalls past the timeout: results = {}, wire = {}, a peer reads {}",
+                res.join(","), hex(&chunks.concat()), back.join(" ")
+            ),
+        );
+    }
+}
+
+/// the same against the real `FramedTransport::write` over a loopback socket: a peer that does not read for a while, a
+/// message larger than the socket buffers, a 60 ms timeout
+fn real_write_timeout(ctx: &mut Ctx, rt: &tokio::runtime::Runtime) {
+    use edp_client::transport::FramedTransport;
+    use tokio::io::AsyncReadExt;
+    const BIG: usize = 32 * 1024 * 1024;
+    let r = std::panic::catch_unwind(std::panic::AssertUnwindSafe(|| {
+        rt.block_on(async move {
+            let listener = tokio::net::TcpListener::bind("127.0.0.1:0").await.ok()?;
+            let addr = listener.local_addr().ok()?;
+            let (client, server) = tokio::join!(tokio::net::TcpStream::connect(addr), listener.accept());
+            let (mut server, _) = server.ok()?;
+            let mut t = FramedTransport::new(std::time::Duration::from_millis(60));
+            t.connect(client.ok()?);
+            t.set_frame_mode(FrameMode::Distribution);
+            let big = vec![0x55u8; BIG];
+            let first = match t.write(&big).await {
+                Err(edp_client::Error::Timeout(_)) => "err-timeout",
+                Ok(()) => "ok",
+                Err(_) => "err-other",
+            };
+            drop(big);
+            // the peer now reads everything that is there
+            let mut got: u64 = 0;
+            let mut head = Vec::new();
+            let mut buf = vec![0u8; 1 << 20];
+            while let Ok(Ok(n)) = tokio::time::timeout(std::time::Duration::from_millis(150), server.read(&mut buf)).await {
+                if n == 0 {
+                    break;
+                }
+                if head.len() < 4 {
+                    head.extend_from_slice(&buf[..n.min(4 - head.len())]);
+                }
+                got += n as u64;
+            }
+            // the caller goes on (Timeout is recoverable) with a small message
+            let second = match t.write(&[7]).await {
+                Ok(()) => "ok",
+                Err(_) => "err",
+            };
+            let mut tail = Vec::new();
+            while let Ok(Ok(n)) = tokio::time::timeout(std::time::Duration::from_millis(150), server.read(&mut buf)).await {
+                if n == 0 {
+                    break;
+                }
+                tail.extend_from_slice(&buf[..n]);
+            }
+            Some((first, got, head, second, tail))
+        })
+    }));
+    match r {
+        Ok(Some((first, got, head, second, tail))) => {
+            if first == "err-timeout" && got > 0 && got < (BIG as u64 + 4) && second == "ok" {
+                ctx.count("real_write_timeout_partial_frame");
+                // the peer is inside a frame of 32 MiB (its length bytes arrived) and the next frame lands in its body
+                if head == (BIG as u32).to_be_bytes() && tail == [0, 0, 0, 1, 7] {
+                    ctx.fail(
+                        "kf-c05-write-timeout-partial",
+                        "FramedTransport(timeout=60ms, distribution).write(32 MiB) to a peer that is not reading = Timeout with the length bytes and a strict part of the body on the wire; the next write([07]) = Ok and its frame 0000000107 arrives inside the body of the unfinished frame",
+                    );
+                }
+            } else {
+                ctx.count("real_write_timeout_not_triggered");
+            }
+        }
+        Ok(None) => ctx.count("transport_skipped_no_loopback"),
+        Err(_) => ctx.fail("transport", "panic in write timeout scenario"),
+    }
+}
+
+// ---------------------------------------------------------------------------------------------------------
+// FramedTransport as a state machine over loopback sockets
+
+fn transport_ops(ctx: &mut Ctx, rt: &tokio::runtime::Runtime) {
+    use edp_client::transport::FramedTransport;
+    use tokio::io::AsyncReadExt;
+    let n = ctx.n(14, 100);
+    for case in 0..n {
+        // op tokens: c connect, mh/md set mode, x close, t take_read_half, i is_connected, h write_half_mut, r<wire> read,
+        // w<msg> write, q<data> write_raw
+        let len = ctx.rng.range(3, 8) as usize;
+        let mut ops: Vec<String> = Vec::new();
+        if case % 4 != 0 {
+            ops.push("c".to_string());
+        }
+        let mut reads = 0;
+        for _ in 0..len {
+            let op = match ctx.rng.below(12) {
+                0 => "c".to_string(),
+                1 => "mh".to_string(),
+                2 => "md".to_string(),
+                3 => if ctx.rng.chance(1, 2) { "x".to_string() } else { "i".to_string() },
+                4 => "t".to_string(),
+                5 => "i".to_string(),
+                6 => "h".to_string(),
+                7 | 8 if reads < 2 => {
+                    reads += 1;
+                    // well-formed and completely consumed in both modes: handshake reads a tick and then [7] (two ticks),
+                    // distribution reads [7] (one tick)
+                    if ctx.rng.chance(1, 2) { "r0000000107".to_string() } else { "r00000000".to_string() }
+                }
+                9 => format!("q{}", hex(&msg_bytes(&mut ctx.rng, 3))),
+                _ => {
+                    let l = ctx.rng.range(0, 5) as usize;
+                    format!("w{}", hex(&msg_bytes(&mut ctx.rng, l)))
+                }
+            };
+            ops.push(op);
+        }
+        let ops2 = ops.clone();
+        let r = std::panic::catch_unwind(std::panic::AssertUnwindSafe(|| {
+            rt.block_on(async move {
+                let mut t = FramedTransport::new(std::time::Duration::from_millis(40));
+                let mut peer: Option<tokio::net::TcpStream> = None;
+                let mut out: Vec<String> = Vec::new();
+                let mut wires: Vec<Vec<u8>> = Vec::new();
+                // everything the transport sent on a connection it has let go of, up to end of stream
+                async fn drain(p: &mut tokio::net::TcpStream) -> Vec<u8> {
+                    let mut got = Vec::new();
+                    let _ = tokio::time::timeout(std::time::Duration::from_secs(10), p.read_to_end(&mut got)).await;
+                    got
+                }
+                for op in &ops2 {
+                    let (k, arg) = op.split_at(1);
+                    match k {
+                        "c" => {
+                            let listener = tokio::net::TcpListener::bind("127.0.0.1:0").await.ok()?;
+                            let addr = listener.local_addr().ok()?;
+                            let (client, server) = tokio::join!(tokio::net::TcpStream::connect(addr), listener.accept());
+                            let (server, _) = server.ok()?;
+                            server.set_nodelay(true).ok()?;
+                            t.connect(client.ok()?);
+                            if let Some(mut old) = peer.take() {
+                                wires.push(drain(&mut old).await);
+                            }
+                            peer = Some(server);
+                            out.push("u".to_string());
+                        }
+                        "m" => {
+                            t.set_frame_mode(mode_of(arg.chars().next().unwrap_or('h')));
+                            out.push("u".to_string());
+                        }
+                        "x" => {
+                            t.close();
+                            if let Some(mut old) = peer.take() {
+                                wires.push(drain(&mut old).await);
+                            }
+                            out.push("u".to_string());
+                        }
+                        "t" => out.push(format!("{}", t.take_read_half().is_some())),
+                        "i" => out.push(format!("{}", t.is_connected())),
+                        "h" => out.push(format!("{}", t.write_half_mut().is_some())),
+                        "r" => {
+                            // nothing has been sent yet: a transport with a stream times out, one without says so
+                            match t.read().await {
+                                Err(edp_client::Error::InvalidStateMessage(_)) => out.push("nostream".to_string()),
+                                Err(edp_client::Error::Timeout(_)) => {
+                                    let wire = crate::canon::unhex(arg);
+                                    if let Some(p) = peer.as_mut() {
+                                        let _ = p.write_all(&wire).await;
+                                        let _ = p.flush().await;
+                                    }
+                                    let mut got: Vec<String> = Vec::new();
+                                    for _ in 0..8 {
+                                        match t.read().await {
+                                            Ok(b) => got.push(format!("ok={}", hexarg(&b))),
+                                            Err(_) => break,
+                                        }
+                                    }
+                                    out.push(if got.is_empty() { "none".to_string() } else { got.join("+") });
+                                }
+                                Ok(b) => out.push(format!("unexpected-read={}", hexarg(&b))),
+                                Err(e) => out.push(format!("err:{}", rh_class(&e))),
+                            }
+                        }
+                        "w" | "q" => {
+                            let data = crate::canon::unhex(arg);
+                            let res = if k == "w" { t.write(&data).await } else { t.write_raw(&data).await };
+                            match res {
+                                Err(edp_client::Error::InvalidStateMessage(_)) => out.push("nostream".to_string()),
+                                Err(e) => out.push(format!("err:{}", rh_class(&e))),
+                                Ok(()) => out.push("ok".to_string()),
+                            }
+                        }
+                        _ => out.push("bad-op".to_string()),
+                    }
+                }
+                t.close();
+                if let Some(mut old) = peer.take() {
+                    wires.push(drain(&mut old).await);
+                }
+                let w = if wires.is_empty() { "-".to_string() } else { wires.iter().map(|x| hexarg(x)).collect::<Vec<_>>().join(",") };
+                Some(format!("{} | {}", out.join(" "), w))
+            })
+        }));
+        match r {
+            Ok(Some(out)) => {
+                ctx.tie("transport-ops", &format!("c05tr {}", ops.join(",")), &out);
+                ctx.count("transport_op_sequences");
+                ctx.add("transport_ops", ops.len() as u64);
+            }
+            Ok(None) => ctx.count("transport_skipped_no_loopback"),
+            Err(_) => ctx.fail("transport", &format!("panic ops={}", ops.join(","))),
+        }
+    }
+}
+
 pub fn run(ctx: &mut Ctx) {
     let rt = tokio::runtime::Builder::new_current_thread().enable_all().build().expect("runtime");
     exhaustive(ctx, &rt);
     boundaries(ctx, &rt);
     random_streams(ctx, &rt);
     writers(ctx, &rt);
+    writers_ext(ctx);
+    real_write_timeout(ctx, &rt);
+    transport_ops(ctx, &rt);
     second_copy(ctx, &rt);
     transport_loopback(ctx, &rt);
     stalls(ctx);
